@@ -44,9 +44,16 @@ Definition wstr_inner (w : wstr) : str :=
   ws_first w ++ flat_map (fun ms => marker (fst ms) ++ snd ms) (ws_rest w).
 Definition wstr_text (w : wstr) : str := 34 :: wstr_inner w ++ [34].
 Definition wstr_value (w : wstr) : str := ws_first w ++ flat_map (fun ms => snd ms) (ws_rest w).
-(* the proved fragment: no back slash (and, as in every string_literal pair, no quotation mark) in the content *)
-Definition seg_okb (s : str) : bool := forallb (fun c => negb (c =? 92) && negb (c =? 34)) s.
-Definition wstr_okb (w : wstr) : bool := seg_okb (ws_first w) && forallb (fun ms => seg_okb (snd ms)) (ws_rest w).
+(* the proved fragment: the CONTENT has no back slash directly before LF or CR (such a pair would itself be read
+   as - part of - a continuation marker).  Any other back slash is fine, wherever the markers cut the string. *)
+Definition bs_before_nl (c : Z) (r : str) : bool :=
+  (c =? 92) && match r with c1 :: _ => (c1 =? 10) || (c1 =? 13) | [] => false end.
+Fixpoint cleanb (s : str) : bool :=
+  match s with
+  | [] => true
+  | c :: r => negb (bs_before_nl c r) && cleanb r
+  end.
+Definition wstr_okb (w : wstr) : bool := cleanb (wstr_value w).
 
 (* ---- settings *)
 Inductive wvalue : Type := WNum (n : wnum) | WStr (s : wstr).
@@ -192,5 +199,550 @@ Definition decode_settings (t : tree) : option (list witem) :=
       | Some items => if tree_eqb (settings_tree pre mk items) t && settings_okb items then Some items else None
       | None => None
       end
+  | _ => None
+  end.
+
+(* ========================================================================================== whole files
+
+   The written form of EVERY statement kind, its pair tree, and what it says (`apply_stmt`: the effect of the
+   written values on the parser state - no text, no tree walk, no number parsing).  `file_tree` is the pair tree of
+   a file made of such statements in any order; Proofs/C19File.v shows that the interpretation of `file_tree`
+   is `post` of the fold of `apply_stmt`, and derives the closed forms per fragment.  The driver decodes the REAL
+   pest tree of every rendered file (`decode_file`), re-renders it with `file_tree` and compares. *)
+
+Definition wnum_node (n : wnum) : tree := Node (wnum_rule n) (wnum_text n) [].
+Definition wstr_node (s : wstr) : tree := Node R_string_literal (wstr_text s) [].
+
+(* signed numbers: a minus sign only before decimal digits *)
+Record wsnum : Type := mkWs { ws_neg : bool; ws_abs : wnum }.
+Definition wsnum_text (n : wsnum) : str := if ws_neg n then 45 :: wnum_text (ws_abs n) else wnum_text (ws_abs n).
+Definition wsnum_value (n : wsnum) : Z := if ws_neg n then - wnum_value (ws_abs n) else wnum_value (ws_abs n).
+Definition wsnum_node (n : wsnum) : tree := Node (wnum_rule (ws_abs n)) (wsnum_text n) [].
+Definition wsnum_okb (n : wsnum) : bool :=
+  wnum_okb (ws_abs n) &&
+  (if ws_neg n then match ws_abs n with WDec _ => wnum_value (ws_abs n) <=? - i64_min | WHex _ => false end
+   else wnum_value (ws_abs n) <=? i64_max).
+
+Definition num_okb (max : Z) (n : wnum) : bool := wnum_okb n && (wnum_value n <=? max).
+Definition nums_okb (max : Z) (l : list wnum) : bool := forallb (num_okb max) l.
+Definition truth (n : wnum) : bool := negb (wnum_value n =? 0).
+
+(* ---- settings in general: key, optional (index), value of any kind *)
+Inductive wval : Type :=
+| VNum (n : wnum)
+| VStr (s : wstr)
+| VList (l : list wnum)        (* a number_list pair *)
+| VRaw (t : tree).             (* anything else (family identifier, ...): only for ignored keys *)
+Definition val_node (v : wval) : tree :=
+  match v with
+  | VNum n => wnum_node n
+  | VStr s => wstr_node s
+  | VList l => Node R_number_list [] (map wnum_node l)
+  | VRaw t => t
+  end.
+Record wset : Type := mkSet { se_key : str; se_idx : option wnum; se_val : wval }.
+Definition set_node (x : wset) : tree :=
+  Node R_setting [] (Node R_identifier (se_key x) [] ::
+                     match se_idx x with Some n => [wnum_node n; val_node (se_val x)] | None => [val_node (se_val x)] end).
+
+(* a list of bytes: one number or a number list *)
+Definition as_numlist (v : wval) : option (list wnum) :=
+  match v with VNum n => Some [n] | VList l => Some l | _ => None end.
+
+Definition set_action (x : wset) : option action := assoc_str (to_lower (se_key x)) setting_table.
+
+Definition push_ref (p : userprm) (off : Z) (d : prmdef) : userprm := mkPrm (up_len p) (up_const p) (up_ref p ++ [(off, d)]).
+Definition push_const (p : userprm) (off : Z) (v : list Z) : userprm := mkPrm (up_len p) (up_const p ++ [(off, v)]) (up_ref p).
+
+(* what a top-level setting says (outside the fragment: nothing) *)
+Definition apply_set (s : st) (x : wset) : st :=
+  let g := s_gsd s in
+  match set_action x, se_idx x, se_val x with
+  | Some (ANum f), None, VNum n => with_gsd (set_num f (wnum_value n) g) s
+  | Some (AStr f), None, VStr w => with_gsd (set_str f (wstr_value w) g) s
+  | Some (ABool f), None, VNum n => with_gsd (set_flag f (truth n) g) s
+  | Some (ASpeed m), None, VNum n => if truth n then with_gsd (set_speeds (Z.lor (d_speeds g) m) g) s else s
+  | Some (ASpecial SP_modular_station), None, VNum n => with_gsd (set_flag BF_modular_station (truth n) g) (with_modspan s)
+  | Some (ASpecial SP_max_module), None, VNum n => with_gsd (set_num NF_max_modules (wnum_value n) g) (with_maxspan s)
+  | Some (ASpecial SP_ext_user_prm_data_ref), Some off, VNum id =>
+      match zmap_get (wnum_value id) (s_defs s) with
+      | Some d => with_legacy None (with_gsd (set_prm (push_ref (d_prm g) (wnum_value off) d) g) s)
+      | None => s
+      end
+  | Some (ASpecial SP_ext_user_prm_data_const), Some off, v =>
+      match as_numlist v with
+      | Some l => with_legacy None (with_gsd (set_prm (push_const (d_prm g) (wnum_value off) (map wnum_value l)) g) s)
+      | None => s
+      end
+  | Some (ASpecial SP_max_user_prm_data_len), _, _ => with_legacy None s
+  | Some (ASpecial SP_user_prm_data_len), None, VNum n =>
+      match s_legacy s with
+      | Some prm => with_legacy (Some (mkPrm (wnum_value n) (up_const prm) (up_ref prm))) s
+      | None => s
+      end
+  | Some (ASpecial SP_user_prm_data), None, v =>
+      match s_legacy s, as_numlist v with
+      | Some prm, Some l => with_legacy (Some (push_const prm 0 (map wnum_value l))) s
+      | _, _ => s
+      end
+  | Some (ASpecial SP_unit_diag_bit), Some b, VStr w =>
+      with_gsd (set_bits (bit_set_text (wnum_value b) (wstr_value w) (d_bits g)) g) s
+  | Some (ASpecial SP_unit_diag_bit_help), Some b, VStr w =>
+      with_gsd (set_bits (bit_set_help (wnum_value b) (wstr_value w) (d_bits g)) g) s
+  | Some (ASpecial SP_unit_diag_not_bit), Some b, VStr w =>
+      with_gsd (set_notbits (bit_set_text (wnum_value b) (wstr_value w) (d_notbits g)) g) s
+  | Some (ASpecial SP_unit_diag_not_bit_help), Some b, VStr w =>
+      with_gsd (set_notbits (bit_set_help (wnum_value b) (wstr_value w) (d_notbits g)) g) s
+  | _, _, _ => s
+  end.
+
+(* the setting is well formed for its key (right shape, values within the types, references defined) *)
+Definition set_okb (s : st) (x : wset) : bool :=
+  match set_action x, se_idx x, se_val x with
+  | None, None, _ => true
+  | None, Some i, _ => true
+  | Some (ANum f), None, VNum n => num_okb (nfield_max f) n
+  | Some (AStr _), None, VStr w => wstr_okb w
+  | Some (ABool _), None, VNum n => num_okb u32_max n
+  | Some (ASpeed _), None, VNum n => num_okb u32_max n
+  | Some (ASpecial SP_modular_station), None, VNum n => num_okb u32_max n
+  | Some (ASpecial SP_max_module), None, VNum n => num_okb (nfield_max NF_max_modules) n
+  | Some (ASpecial SP_ext_user_prm_data_ref), Some off, VNum id =>
+      num_okb u32_max off && num_okb u32_max id &&
+      match zmap_get (wnum_value id) (s_defs s) with Some _ => true | None => false end
+  | Some (ASpecial SP_ext_user_prm_data_const), Some off, v =>
+      num_okb u32_max off && match as_numlist v with Some l => nums_okb u8_max l | None => false end
+  | Some (ASpecial SP_max_user_prm_data_len), _, _ => true
+  | Some (ASpecial SP_user_prm_data_len), None, VNum n =>
+      match s_legacy s with
+      | Some prm => num_okb u8_max n && negb (wnum_value n <? current_max_length prm)
+      | None => true
+      end
+  | Some (ASpecial SP_user_prm_data), None, v =>
+      match s_legacy s with
+      | Some prm =>
+          match as_numlist v with
+          | Some l => nums_okb u8_max l && negb (negb (up_len prm =? 0) && (up_len prm <? Zlength' l))
+          | None => false
+          end
+      | None => true
+      end
+  | Some (ASpecial SP_unit_diag_bit), Some b, VStr w
+  | Some (ASpecial SP_unit_diag_bit_help), Some b, VStr w
+  | Some (ASpecial SP_unit_diag_not_bit), Some b, VStr w
+  | Some (ASpecial SP_unit_diag_not_bit_help), Some b, VStr w => num_okb u32_max b && wstr_okb w
+  | _, _, _ => false
+  end.
+
+(* ---- PrmText *)
+Record wtentry : Type := mkTe { te_num : wsnum; te_str : wstr }.
+Definition tentry_node (e : wtentry) : tree := Node R_prm_text_value [] [wsnum_node (te_num e); wstr_node (te_str e)].
+Definition table_add (acc : list (str * Z)) (e : wtentry) : list (str * Z) :=
+  smap_insert (wstr_value (te_str e)) (wsnum_value (te_num e)) acc.
+Definition table_of (es : list wtentry) : list (str * Z) := fold_left table_add es [].
+Definition tentry_okb (e : wtentry) : bool := wsnum_okb (te_num e) && wstr_okb (te_str e).
+
+(* ---- ExtUserPrmData *)
+Inductive wtype : Type := WTNamed (txt : str) | WTBit (n : wnum) | WTBitArea (a b : wnum).
+Definition wtype_node (t : wtype) : tree :=
+  Node R_prm_data_type_name []
+    [match t with
+     | WTNamed txt => Node R_identifier txt []
+     | WTBit n => Node R_bit [] [wnum_node n]
+     | WTBitArea a b => Node R_bit_area [] [wnum_node a; wnum_node b]
+     end].
+Definition wtype_den (t : wtype) : option dtype :=
+  match t with
+  | WTNamed txt => match assoc_str (to_lower txt) dtype_table with Some n => Some (DNamed n) | None => None end
+  | WTBit n => Some (DBit (wnum_value n))
+  | WTBitArea a b => Some (DBitArea (wnum_value a) (wnum_value b))
+  end.
+Definition wtype_okb (t : wtype) : bool :=
+  match t with
+  | WTNamed txt => match assoc_str (to_lower txt) dtype_table with Some _ => true | None => false end
+  | WTBit n => num_okb u8_max n
+  | WTBitArea a b => num_okb u8_max a && num_okb u8_max b
+  end.
+
+Inductive wconstr : Type := WCNone | WCRange (a b : wsnum) | WCSet (l : list wsnum).
+Definition wconstr_nodes (c : wconstr) : list tree :=
+  match c with
+  | WCNone => []
+  | WCRange a b => [Node R_prm_data_value_range [] [wsnum_node a; wsnum_node b]]
+  | WCSet l => [Node R_prm_data_value_set [] (map wsnum_node l)]
+  end.
+Definition wconstr_den (c : wconstr) : constraint :=
+  match c with
+  | WCNone => CNone
+  | WCRange a b => CMinMax (wsnum_value a) (wsnum_value b)
+  | WCSet l => CEnum (map wsnum_value l)
+  end.
+Definition wconstr_okb (c : wconstr) : bool :=
+  match c with
+  | WCNone => true
+  | WCRange a b => wsnum_okb a && wsnum_okb b
+  | WCSet l => forallb wsnum_okb l
+  end.
+
+Record wdef : Type := mkWdef {
+  wd_id : wnum; wd_name : wstr; wd_type : wtype; wd_default : wsnum; wd_constr : wconstr;
+  wd_tref : option wnum; wd_chg : option wnum; wd_vis : option wnum }.
+Definition opt_node (r : rule) (o : option wnum) : list tree :=
+  match o with Some n => [Node r [] [wnum_node n]] | None => [] end.
+Definition wdef_node (d : wdef) : tree :=
+  Node R_ext_user_prm_data []
+    (wnum_node (wd_id d) :: wstr_node (wd_name d) :: wtype_node (wd_type d) :: wsnum_node (wd_default d) ::
+     wconstr_nodes (wd_constr d) ++ opt_node R_prm_text_ref (wd_tref d) ++
+     opt_node R_prm_data_changeable (wd_chg d) ++ opt_node R_prm_data_visible (wd_vis d)).
+Definition opt_truth (o : option wnum) : bool := match o with Some n => truth n | None => true end.
+Definition opt_okb (max : Z) (o : option wnum) : bool := match o with Some n => num_okb max n | None => true end.
+(* the definition the block says, given the parameter texts defined so far *)
+Definition wdef_den (texts : list (Z * list (str * Z))) (d : wdef) : prmdef :=
+  mkDef (wstr_value (wd_name d))
+        (match wtype_den (wd_type d) with Some t => t | None => DBit 0 end)
+        (wsnum_value (wd_default d)) (wconstr_den (wd_constr d))
+        (match wd_tref d with Some r => zmap_get (wnum_value r) texts | None => None end)
+        (opt_truth (wd_chg d)) (opt_truth (wd_vis d)).
+Definition wdef_okb (texts : list (Z * list (str * Z))) (d : wdef) : bool :=
+  num_okb u32_max (wd_id d) && wstr_okb (wd_name d) && wtype_okb (wd_type d) && wsnum_okb (wd_default d) &&
+  wconstr_okb (wd_constr d) &&
+  match wd_tref d with
+  | Some r => num_okb u16_max r && match zmap_get (wnum_value r) texts with Some _ => true | None => false end
+  | None => true
+  end && opt_okb u32_max (wd_chg d) && opt_okb u32_max (wd_vis d).
+
+(* ---- Unit_Diag_Area *)
+Definition avalue_node (e : wnum * wstr) : tree := Node R_unit_diag_area_value [] [wnum_node (fst e); wstr_node (snd e)].
+Definition avalues_of (es : list (wnum * wstr)) : list (Z * str) :=
+  fold_left (fun acc e => zmap_insert (wnum_value (fst e)) (wstr_value (snd e)) acc) es [].
+
+(* ---- Module *)
+Inductive wmitem : Type :=
+| MSet (x : wset)
+| MRef (n : wnum)                 (* the module reference number *)
+| MArea (txt : str) (ks : list tree).   (* Data_Area_Beg .. Data_Area_End: ignored (txt: pair text when empty) *)
+Definition mitem_node (i : wmitem) : tree :=
+  match i with
+  | MSet x => set_node x
+  | MRef n => Node R_module_reference [] [wnum_node n]
+  | MArea txt ks => Node R_data_area txt ks
+  end.
+Record wmodule : Type := mkWmod { wm_name : wstr; wm_cfg : list wnum; wm_items : list wmitem }.
+Definition wmodule_node (m : wmodule) : tree :=
+  Node R_module [] (wstr_node (wm_name m) :: Node R_number_list [] (map wnum_node (wm_cfg m)) :: map mitem_node (wm_items m)).
+
+Inductive mkey : Type := MK_len | MK_ref | MK_const | MK_info | MK_other.
+Definition mset_key (x : wset) : mkey :=
+  let k := to_lower (se_key x) in
+  if str_eqb k key_ext_module_prm_data_len then MK_len
+  else if str_eqb k key_ext_user_prm_data_ref then MK_ref
+  else if str_eqb k key_ext_user_prm_data_const then MK_const
+  else if str_eqb k key_info_text then MK_info
+  else MK_other.
+
+Definition apply_mitem (defs : list (Z * prmdef)) (a : modacc) (i : wmitem) : modacc :=
+  match i with
+  | MRef n => mkModAcc (ma_info a) (Some (wnum_value n)) (ma_prm a)
+  | MArea _ _ => a
+  | MSet x =>
+      let p := ma_prm a in
+      match mset_key x, se_idx x, se_val x with
+      | MK_len, None, VNum n => mkModAcc (ma_info a) (ma_ref a) (mkPrm (wnum_value n) (up_const p) (up_ref p))
+      | MK_ref, Some off, VNum id =>
+          match zmap_get (wnum_value id) defs with
+          | Some d => mkModAcc (ma_info a) (ma_ref a) (push_ref p (wnum_value off) d)
+          | None => a
+          end
+      | MK_const, Some off, v =>
+          match as_numlist v with
+          | Some l => mkModAcc (ma_info a) (ma_ref a) (push_const p (wnum_value off) (map wnum_value l))
+          | None => a
+          end
+      | MK_info, None, VStr w => mkModAcc (Some (wstr_value w)) (ma_ref a) p
+      | _, _, _ => a
+      end
+  end.
+Definition mitem_okb (defs : list (Z * prmdef)) (i : wmitem) : bool :=
+  match i with
+  | MRef n => num_okb u32_max n
+  | MArea _ _ => true
+  | MSet x =>
+      match mset_key x, se_idx x, se_val x with
+      | MK_other, _, _ => true
+      | MK_len, None, VNum n => num_okb u8_max n
+      | MK_ref, Some off, VNum id =>
+          num_okb u32_max off && num_okb u32_max id &&
+          match zmap_get (wnum_value id) defs with Some _ => true | None => false end
+      | MK_const, Some off, v =>
+          num_okb u32_max off && match as_numlist v with Some l => nums_okb u8_max l | None => false end
+      | MK_info, None, VStr w => wstr_okb w
+      | _, _, _ => false
+      end
+  end.
+Definition wmodule_den (defs : list (Z * prmdef)) (m : wmodule) : module :=
+  let a := fold_left (apply_mitem defs) (wm_items m) (mkModAcc None None prm_default) in
+  mkModule (wstr_value (wm_name m)) (ma_info a) (map wnum_value (wm_cfg m)) (ma_ref a) (ma_prm a).
+Definition wmodule_okb (defs : list (Z * prmdef)) (m : wmodule) : bool :=
+  wstr_okb (wm_name m) && nums_okb u8_max (wm_cfg m) && forallb (mitem_okb defs) (wm_items m).
+
+(* ---- SlotDefinition *)
+Inductive wspec : Type := SRange (a b : wnum) | SSet (l : list wnum).
+Record wslot : Type := mkWslot { wl_num : wnum; wl_name : wstr; wl_default : wnum; wl_spec : wspec }.
+Definition wspec_node (sp : wspec) : tree :=
+  match sp with
+  | SRange a b => Node R_slot_value_range [] [wnum_node a; wnum_node b]
+  | SSet l => Node R_slot_value_set [] (map wnum_node l)
+  end.
+Definition wslot_node (sl : wslot) : tree :=
+  Node R_slot [] [wnum_node (wl_num sl); wstr_node (wl_name sl); wnum_node (wl_default sl); wspec_node (wl_spec sl)].
+(* the references a slot allows, in the order the parser looks them up *)
+Definition wspec_refs (sp : wspec) : list Z :=
+  match sp with
+  | SRange a b => range_incl (wnum_value a) (wnum_value b)
+  | SSet l => map wnum_value l
+  end.
+Definition apply_slot (s : st) (sl : wslot) : st :=
+  let ms := d_modules (s_gsd s) in
+  let aw := find_all ms (wspec_refs (wl_spec sl)) (s_warn s) in
+  match find_module ms (wnum_value (wl_default sl)) with
+  | Some dflt =>
+      let warn := if contains_module ms (fst aw) dflt then snd aw else snd aw + 1 in
+      with_warn warn (with_gsd (set_slots (d_slots (s_gsd s) ++
+        [mkSlot (wstr_value (wl_name sl)) (wnum_value (wl_num sl)) dflt (fst aw)]) (s_gsd s)) s)
+  | None => s
+  end.
+Definition wspec_okb (sp : wspec) : bool :=
+  match sp with
+  | SRange a b => num_okb u16_max a && num_okb u16_max b
+  | SSet l => nums_okb u16_max l
+  end.
+Definition wslot_okb (s : st) (sl : wslot) : bool :=
+  num_okb u8_max (wl_num sl) && wstr_okb (wl_name sl) && num_okb u16_max (wl_default sl) && wspec_okb (wl_spec sl) &&
+  match find_module (d_modules (s_gsd s)) (wnum_value (wl_default sl)) with Some _ => true | None => false end.
+Fixpoint slots_okb (s : st) (l : list wslot) : bool :=
+  match l with
+  | [] => true
+  | sl :: r => wslot_okb s sl && slots_okb (apply_slot s sl) r
+  end.
+
+(* ---- statements *)
+Inductive wstmt : Type :=
+| WSetS (x : wset)
+| WText (id : wnum) (es : list wtentry)
+| WDef (d : wdef)
+| WArea (first last : wnum) (es : list (wnum * wstr))
+| WModule (m : wmodule)
+| WSlots (txt : str) (l : list wslot)      (* txt: the pair text of an empty block *)
+| WIgnored (t : tree).            (* UnitDiagType, Physical_Interface, ... blocks *)
+
+Definition ignored_rule (r : rule) : bool :=
+  match r with
+  | R_prm_text | R_ext_user_prm_data | R_unit_diag_area | R_module | R_slot_definition | R_setting => false
+  | _ => true
+  end.
+
+Definition stmt_node (x : wstmt) : tree :=
+  match x with
+  | WSetS x => set_node x
+  | WText id es => Node R_prm_text [] (wnum_node id :: map tentry_node es)
+  | WDef d => wdef_node d
+  | WArea a b es => Node R_unit_diag_area [] (wnum_node a :: wnum_node b :: map avalue_node es)
+  | WModule m => wmodule_node m
+  | WSlots txt l => Node R_slot_definition txt (map wslot_node l)
+  | WIgnored t => t
+  end.
+
+Definition apply_stmt (s : st) (x : wstmt) : st :=
+  match x with
+  | WSetS x => apply_set s x
+  | WText id es => with_texts (zmap_insert (wnum_value id) (table_of es) (s_texts s)) s
+  | WDef d => with_defs (zmap_insert (wnum_value (wd_id d)) (wdef_den (s_texts s) d) (s_defs s)) s
+  | WArea a b es =>
+      with_gsd (set_areas (d_areas (s_gsd s) ++ [mkArea (wnum_value a) (wnum_value b) (avalues_of es)]) (s_gsd s)) s
+  | WModule m => with_gsd (set_modules (d_modules (s_gsd s) ++ [wmodule_den (s_defs s) m]) (s_gsd s)) s
+  | WSlots _ l => fold_left apply_slot l s
+  | WIgnored _ => s
+  end.
+
+Definition stmt_okb (s : st) (x : wstmt) : bool :=
+  match x with
+  | WSetS x => set_okb s x
+  | WText id es => num_okb u16_max id && forallb tentry_okb es
+  | WDef d => wdef_okb (s_texts s) d
+  | WArea a b es => num_okb u16_max a && num_okb u16_max b && forallb (fun e => num_okb u16_max (fst e) && wstr_okb (snd e)) es
+  | WModule m => wmodule_okb (s_defs s) m
+  | WSlots _ l => slots_okb s l
+  | WIgnored t => ignored_rule (root t)
+  end.
+
+Fixpoint stmts_okb (s : st) (l : list wstmt) : bool :=
+  match l with
+  | [] => true
+  | x :: r => stmt_okb s x && stmts_okb (apply_stmt s x) r
+  end.
+
+Definition file_tree (pre marker_text : str) (stmts : list wstmt) : tree :=
+  Node R_gsd [] (Node R_any_text pre [] :: Node R_start marker_text [] :: map stmt_node stmts ++ [Node R_EOI [] []]).
+
+Definition file_okb (stmts : list wstmt) : bool := stmts_okb st_init stmts.
+(* what the file says: the description and the number of warnings *)
+Definition file_says (stmts : list wstmt) : pr (desc * Z) := post (fold_left apply_stmt stmts st_init).
+
+(* ------------------------------------------------------------------------------------------ decoding real pair trees
+   (driver only; whatever these functions return is re-rendered with file_tree and compared with the real tree) *)
+
+Definition obind {A B} (o : option A) (f : A -> option B) : option B := match o with Some a => f a | None => None end.
+Notation "'let?' x ':=' o 'in' k" := (obind o (fun x => k)) (at level 200, x pattern, o at level 100, k at level 200, right associativity).
+
+Definition decode_num (t : tree) : option wnum :=
+  match root t with
+  | R_dec_number => Some (decode_dec (text t))
+  | R_hex_number => Some (decode_hex (text t))
+  | _ => None
+  end.
+Definition decode_snum (t : tree) : option wsnum :=
+  match root t with
+  | R_dec_number =>
+      match text t with
+      | c :: r => if c =? 45 then Some (mkWs true (decode_dec r)) else Some (mkWs false (decode_dec (text t)))
+      | [] => Some (mkWs false (decode_dec []))
+      end
+  | R_hex_number => Some (mkWs false (decode_hex (text t)))
+  | _ => None
+  end.
+Definition decode_str (t : tree) : option wstr :=
+  match root t with
+  | R_string_literal => Some (split_conts (drop_first_last (text t)))
+  | _ => None
+  end.
+Fixpoint decode_all {A} (f : tree -> option A) (l : list tree) : option (list A) :=
+  match l with
+  | [] => Some []
+  | t :: r => let? a := f t in let? b := decode_all f r in Some (a :: b)
+  end.
+Definition decode_val (t : tree) : wval :=
+  match root t with
+  | R_dec_number | R_hex_number => match decode_num t with Some n => VNum n | None => VRaw t end
+  | R_string_literal => match decode_str t with Some s => VStr s | None => VRaw t end
+  | R_number_list => match decode_all decode_num (kids t) with Some l => VList l | None => VRaw t end
+  | _ => VRaw t
+  end.
+Definition decode_set (t : tree) : option wset :=
+  match kids t with
+  | [k; v] => Some (mkSet (text k) None (decode_val v))
+  | [k; i; v] => let? n := decode_num i in Some (mkSet (text k) (Some n) (decode_val v))
+  | _ => None
+  end.
+Definition decode_tentry (t : tree) : option wtentry :=
+  match kids t with
+  | [n; s] => let? a := decode_snum n in let? b := decode_str s in Some (mkTe a b)
+  | _ => None
+  end.
+Definition decode_avalue (t : tree) : option (wnum * wstr) :=
+  match kids t with
+  | [n; s] => let? a := decode_num n in let? b := decode_str s in Some (a, b)
+  | _ => None
+  end.
+Definition decode_type (t : tree) : option wtype :=
+  match kids t with
+  | [x] =>
+      match root x, kids x with
+      | R_identifier, _ => Some (WTNamed (text x))
+      | R_bit, [n] => let? a := decode_num n in Some (WTBit a)
+      | R_bit_area, [n; m] => let? a := decode_num n in let? b := decode_num m in Some (WTBitArea a b)
+      | _, _ => None
+      end
+  | _ => None
+  end.
+Definition take_constr (l : list tree) : option (wconstr * list tree) :=
+  match l with
+  | t :: r =>
+      match root t, kids t with
+      | R_prm_data_value_range, [a; b] => let? x := decode_snum a in let? y := decode_snum b in Some (WCRange x y, r)
+      | R_prm_data_value_set, ks => let? xs := decode_all decode_snum ks in Some (WCSet xs, r)
+      | _, _ => Some (WCNone, l)
+      end
+  | [] => Some (WCNone, [])
+  end.
+Definition take_opt (rl : rule) (l : list tree) : option (option wnum * list tree) :=
+  match l with
+  | t :: r =>
+      if rule_eqb (root t) rl then
+        match kids t with [n] => let? a := decode_num n in Some (Some a, r) | _ => None end
+      else Some (None, l)
+  | [] => Some (None, [])
+  end.
+Definition decode_def (t : tree) : option wdef :=
+  match kids t with
+  | i :: n :: ty :: d :: r =>
+      let? id := decode_num i in let? name := decode_str n in let? wt := decode_type ty in let? dflt := decode_snum d in
+      let? (c, r1) := take_constr r in
+      let? (tr, r2) := take_opt R_prm_text_ref r1 in
+      let? (ch, r3) := take_opt R_prm_data_changeable r2 in
+      let? (vi, r4) := take_opt R_prm_data_visible r3 in
+      match r4 with [] => Some (mkWdef id name wt dflt c tr ch vi) | _ => None end
+  | _ => None
+  end.
+Definition decode_mitem (t : tree) : option wmitem :=
+  match root t with
+  | R_setting => let? x := decode_set t in Some (MSet x)
+  | R_module_reference => match kids t with [n] => let? a := decode_num n in Some (MRef a) | _ => None end
+  | R_data_area => Some (MArea (text t) (kids t))
+  | _ => None
+  end.
+Definition decode_module (t : tree) : option wmodule :=
+  match kids t with
+  | n :: c :: r =>
+      let? name := decode_str n in
+      let? cfg := decode_all decode_num (kids c) in
+      let? items := decode_all decode_mitem r in
+      Some (mkWmod name cfg items)
+  | _ => None
+  end.
+Definition decode_slot (t : tree) : option wslot :=
+  match kids t with
+  | [n; s; d; sp] =>
+      let? num := decode_num n in let? name := decode_str s in let? dflt := decode_num d in
+      let? spec :=
+        match root sp, kids sp with
+        | R_slot_value_range, [a; b] => let? x := decode_num a in let? y := decode_num b in Some (SRange x y)
+        | R_slot_value_set, ks => let? xs := decode_all decode_num ks in Some (SSet xs)
+        | _, _ => None
+        end in
+      Some (mkWslot num name dflt spec)
+  | _ => None
+  end.
+Definition decode_stmt (t : tree) : option wstmt :=
+  match root t with
+  | R_setting => let? x := decode_set t in Some (WSetS x)
+  | R_prm_text =>
+      match kids t with
+      | i :: es => let? id := decode_num i in let? l := decode_all decode_tentry es in Some (WText id l)
+      | [] => None
+      end
+  | R_ext_user_prm_data => let? d := decode_def t in Some (WDef d)
+  | R_unit_diag_area =>
+      match kids t with
+      | a :: b :: es =>
+          let? x := decode_num a in let? y := decode_num b in let? l := decode_all decode_avalue es in Some (WArea x y l)
+      | _ => None
+      end
+  | R_module => let? m := decode_module t in Some (WModule m)
+  | R_slot_definition => let? l := decode_all decode_slot (kids t) in Some (WSlots (text t) l)
+  | _ => Some (WIgnored t)
+  end.
+Fixpoint decode_stmts (l : list tree) : option (list wstmt) :=
+  match l with
+  | [] => Some []
+  | [Node R_EOI _ _] => Some []
+  | t :: r => let? x := decode_stmt t in let? xs := decode_stmts r in Some (x :: xs)
+  end.
+
+(* Some stmts: the tree IS file_tree of these statements (checked by re-rendering) *)
+Definition decode_file (t : tree) : option (list wstmt) :=
+  match t with
+  | Node R_gsd _ (Node R_any_text pre _ :: Node R_start mk _ :: rest) =>
+      let? stmts := decode_stmts rest in
+      if tree_eqb (file_tree pre mk stmts) t then Some stmts else None
   | _ => None
   end.
